@@ -176,6 +176,7 @@ class TBRMMDiagnostics:
     self._aatest = None
     self._bbtest = None
     self._dwtest = None
+    self._tests_ok = None
 
   @property
   def corr(self):
